@@ -115,7 +115,11 @@ func (p *Parser) Feed(b []byte) *ParseError {
 		p.ignored += int64(len(b))
 		return p.err
 	}
-	p.buf = append(p.buf, b...)
+	if len(p.buf) == 0 {
+		p.buf = append(make([]byte, 0, len(b)), b...) // always a private copy: payloads are unmasked in place
+	} else {
+		p.buf = append(p.buf, b...)
+	}
 	for p.err == nil && p.step() {
 	}
 	if p.err != nil {
@@ -223,8 +227,9 @@ func (p *Parser) step() bool {
 		return false
 	}
 	end := hdr + int(n)
-	payload := make([]byte, n)
-	copy(payload, b[hdr:end])
+	// p.buf is the parser's own copy of the stream and consumed bytes are never written again,
+	// so the payload is unmasked in place and frames/events may alias it (no per-frame copy).
+	payload := b[hdr:end:end]
 	if masked {
 		MaskRef(key, 0, payload)
 	}
@@ -259,7 +264,11 @@ func (p *Parser) step() bool {
 			p.open, p.openType, p.openComp = true, op, fr.Rsv1
 			p.openData, p.openWire, p.openFirst, p.openFrames = nil, 0, idx, 0
 		}
-		p.openData = append(p.openData, payload...)
+		if p.openData == nil && fin {
+			p.openData = payload // single-frame message: no copy
+		} else {
+			p.openData = append(p.openData, payload...)
+		}
 		p.openWire += n
 		p.openFrames++
 		if fin {
